@@ -142,11 +142,11 @@ pub fn nodes(schema: &SchemaModel, q: &Query) -> Vec<NodeInfo> {
     out
 }
 
-fn has_dir(n: &Node, prop: &str, pred: impl Fn(&Dir) -> bool) -> bool {
+pub fn has_dir(n: &Node, prop: &str, pred: impl Fn(&Dir) -> bool) -> bool {
     n.items.iter().any(|it| matches!(it, Item::Prop(p) if p.name == prop && p.dirs.iter().any(&pred)))
 }
 
-fn add_prop_dir(n: &mut Node, prop: &str, d: Dir) {
+pub fn add_prop_dir(n: &mut Node, prop: &str, d: Dir) {
     for it in n.items.iter_mut() {
         if let Item::Prop(p) = it {
             if p.name == prop && p.alias.is_none() {
@@ -177,7 +177,7 @@ fn edge_variants(schema: &SchemaModel, ty: &str) -> Vec<(String, Vec<(String, FV
     out
 }
 
-fn prop_type(schema: &SchemaModel, ty: &str, prop: &str) -> Option<TyRef> {
+pub fn prop_type(schema: &SchemaModel, ty: &str, prop: &str) -> Option<TyRef> {
     if prop == "__typename" {
         return Some(TyRef::Named("String".into(), false));
     }
